@@ -22,9 +22,10 @@ ASSUMPTIONS = [
     "delivered frames whose payload is shorter than 2 bytes (3 for 4076) are ignored: the property does not speak of them",
     "termination is decided on logical steps (read/recv calls <= 3*len+16), never on wall-clock",
 ]
-GATES = ["frames_compared", "backend:file", "backend:buffered", "backend:socket", "kind:len0", "kind:len1023"]
+GATES = ["frames_compared", "backend:file", "backend:buffered", "backend:socket", "kind:len0", "kind:len1023",
+         "kind:len1", "kind:len2-4076"]
 
-KINDS = ("defined", "defined", "defined", "unknown", "unknown", "len0", "len1", "len2", "len255",
+KINDS = ("defined", "defined", "defined", "unknown", "unknown", "len0", "len1", "len2", "len2-4076", "len255",
          "len256", "len1022", "len1023", "defmax")
 
 
@@ -78,7 +79,7 @@ def make_items(rng, n=None, adversarial=None):
         i = rng.randrange(len(items) + 1)
         run = []
         for _ in range(rng.randint(2, 4)):
-            kk = rng.choice(("len0", "len1"))
+            kk = rng.choice(("len0", "len1", "len2-4076"))
             fr, p, _ = streams.rand_frame(rng, kk)
             run.append((kk, fr, p))
         items[i:i] = run
@@ -95,12 +96,17 @@ def run_case(ctx, items, backend, mode, bparam):
     params = {"items": [[k, b.hex(), (p.hex() if p is not None else None)] for k, b, p in items],
               "backend": backend, "mode": mode, "bparam": bparam}
     sock = None
+    feeder = None
     if backend == "file":
         stream = doubles.RecordingStream(data, budget=budget)
         counter = stream
     elif backend == "buffered":
         raw = doubles.RawChunky(data, bparam["sizes"])
         stream = doubles.CountingStream(io.BufferedReader(raw, buffer_size=bparam.get("bufsize", 64)), budget)
+        counter = stream
+    elif backend in ("pipe", "makefile"):
+        inner, feeder = (doubles.pipe_file if backend == "pipe" else doubles.makefile_stream)(data)
+        stream = doubles.CountingStream(inner, budget)
         counter = stream
     else:
         sock = doubles.ScriptedSocket(data, bparam["sizes"], budget=budget)
@@ -148,6 +154,12 @@ def run_case(ctx, items, backend, mode, bparam):
     finally:
         if sock is not None:
             sock.close()
+        if feeder is not None:
+            try:
+                inner.close()
+            except OSError:
+                pass
+            feeder.join(5)
     # the property does not speak of frames without a message number
     got = [r for r in delivered if len(r) >= 6 and streams.has_msgnum(r[3:-3])]
     ctx.hit("frames_compared", len(expected))
@@ -190,7 +202,7 @@ def run_case(ctx, items, backend, mode, bparam):
 
 
 def backend_param(rng, backend, total):
-    if backend == "file":
+    if backend in ("file", "pipe", "makefile"):
         return {}
     if backend == "buffered":
         return {"sizes": [rng.choice((1, 2, 3, 5, 17, 64, 1000)) for _ in range(rng.randint(1, 6))],
@@ -211,7 +223,7 @@ def run(ctx):
     advs = (None, None, "zero-first", "zero-last", "zero-max", "unknown-run", "filler-run")
     for i in range(ctx.n(24000, 500000)):
         items = make_items(rng, adversarial=advs[i % len(advs)])
-        backend = ("file", "buffered", "socket")[i % 3]
+        backend = ("file", "buffered", "socket", "file", "buffered", "socket", "pipe", "makefile")[i % 8]
         mode = rng.choice((0, 1, 2))
         total = sum(len(b) for _, b, _ in items)
         run_case(ctx, items, backend, mode, backend_param(rng, backend, total))
